@@ -25,6 +25,8 @@ func init() {
 }
 
 func runC10(w *World, r *Report) {
+	hrQueuePriority(w, r, "R4")
+	hrConstructorAlignsWindow(w, r, "R7")
 	la := NewLockAn(w)
 	checkGB(w, r, la, "R1", []GuardRow{
 		{Pkg: pkgQueue, Struct: "DelayedPriorityQueue", Fields: []string{"queue", "currentWindowCounter", "currentWindowEndTime", "requestCounts"}, Mutex: "mutex", MinSites: 18},
